@@ -147,6 +147,31 @@ fn c11_send_announce_contents() {
     kani::cover!(r.0 == 0);
 }
 
+/// no forwarded TLVs, path trace on: own PATH_TRACE TLV (stored path ++ own identity) and the lock discipline of that branch
+#[kani::proof]
+#[kani::unwind(34)]
+#[kani::stub(PortActionIterator::from, PortActionIterator::verif_recording_from)]
+#[kani::stub(Message::serialize, Message::verif_recording_serialize)]
+#[kani::stub(TlvSetBuilder::add, TlvSetBuilder::verif_contract_add)]
+#[kani::stub(crate::time::Interval::as_core_duration, stub_as_core_duration)]
+fn c15_send_announce_own_path_trace() {
+    let r = announce_tx(0, true);
+    kani::cover!(r.3 > 0);
+}
+
+/// BOUND K = 2 forwarded TLVs, path trace off: sender filter and exact room accounting across skipped TLVs
+#[kani::proof]
+#[kani::unwind(34)]
+#[kani::stub(PortActionIterator::from, PortActionIterator::verif_recording_from)]
+#[kani::stub(Message::serialize, Message::verif_recording_serialize)]
+#[kani::stub(TlvSetBuilder::add, TlvSetBuilder::verif_contract_add)]
+#[kani::stub(crate::time::Interval::as_core_duration, stub_as_core_duration)]
+fn c15_send_announce_two_tlvs() {
+    let r = announce_tx(2, false);
+    kani::cover!(r.0 == 2 && r.1 > 0);
+    kani::cover!(r.2);
+}
+
 /// one forwarded TLV, path trace on
 #[kani::proof]
 #[kani::unwind(34)]
